@@ -389,3 +389,149 @@ Section NonIdle.
     split; [split; [eapply WFx_shape; [|exact HW]; reflexivity|apply Srv_dr; exact HS]|apply NI_dr; exact HN].
   Qed.
 End NonIdle.
+
+(* ---------- the invariant in the words of C05 ---------- *)
+Lemma filter_all {A} (p : A -> bool) (l : list A) : (forall x, In x l -> p x = true) -> filter p l = l.
+Proof. induction l as [|y r IH]; cbn; intros H; [reflexivity|]. rewrite (H y (or_introl eq_refl)). f_equal. apply IH. intros x Hx. apply H. right. exact Hx. Qed.
+
+Theorem ni_means cf s : NIInv cf s -> forall k nd nc c, nth_error (nodes s) k = Some nd -> nth_error (cf_nodes cf) k = Some nc -> nc_c nc = Some c ->
+  (* every customer of the node has an entry *)
+  (forall i, In i (all_individuals nd) -> exists x, find_ind i (inds s) = Some x) /\
+  (* if some customer of the node is waiting (has no server), every server of the node is busy *)
+  ((exists i x, In i (all_individuals nd) /\ find_ind i (inds s) = Some x /\ i_server x = None) ->
+     forall sv, In sv (n_servers nd) -> sv_busy sv = true) /\
+  (* in numbers: the busy servers are min(c, customers at the node) *)
+  zlen (filter sv_busy (n_servers nd)) = Z.min c (n_pop nd).
+Proof.
+  intros [[HW HS] HN] k nd nc c Hk Hc Hcc.
+  pose proof (HN k nd nc Hk Hc) as [HE HB]. rewrite !hole_none in HB. rewrite Hcc in HB.
+  pose proof (HS k nd nc Hk Hc) as HF. rewrite Hcc in HF. cbn in HF. destruct HF as [L N B C D].
+  assert (Hent : forall i, In i (all_individuals nd) -> exists x, find_ind i (inds s) = Some x).
+  { intros i Hi. specialize (HE i Hi). unfold ient in HE. destruct (find_ind i (inds s)) as [x|]; [eauto|contradiction]. }
+  assert (Hwait : (exists i x, In i (all_individuals nd) /\ find_ind i (inds s) = Some x /\ i_server x = None) ->
+                  forall sv, In sv (n_servers nd) -> sv_busy sv = true).
+  { intros (i & x & Hi & Hf & Hx) sv Hsv. eapply (HB ltac:(discriminate) i Hi); [|discriminate|exact Hsv|discriminate].
+    rewrite (ient_find _ _ _ Hf), Hx. reflexivity. }
+  split; [exact Hent|]. split; [exact Hwait|].
+  set (ids := all_individuals nd) in *. set (svs := n_servers nd) in *. set (il := inds s) in *.
+  assert (NDids : NoDup ids).
+  { apply WFx_nodup, NoDup_app_l in HW. eapply NoDup_concat_In; [exact HW|]. apply in_map. eapply nth_error_In; eauto. }
+  assert (Hpop : n_pop nd = zlen ids) by (destruct (WFx_means _ HW) as (_ & _ & Hp & _); apply Hp; eapply nth_error_In; eauto).
+  assert (NDsvs : NoDup svs) by (eapply NoDup_map_inv; exact N).
+  set (Bz := filter sv_busy svs). set (Hz := filter (holds_server il) ids).
+  assert (HBz : forall sv, In sv Bz -> In sv svs /\ exists i, sv_cust sv = Some i /\ In i ids /\ isv il i = Some (sv_id sv)).
+  { intros sv Hsv. apply filter_In in Hsv as [Hsv Hb]. split; [exact Hsv|]. rewrite (B sv Hsv) in Hb.
+    destruct (sv_cust sv) as [i|] eqn:Ecu; [|discriminate]. exists i. split; [reflexivity|]. apply (C sv i Hsv Ecu). }
+  assert (HHz : forall i, In i Hz -> In i ids /\ exists sid, isv il i = Some sid).
+  { intros i Hi. apply filter_In in Hi as [Ha Hb]. split; [exact Ha|]. unfold holds_server in Hb. destruct (isv il i); [eauto|discriminate]. }
+  assert (L1 : (length Bz <= length Hz)%nat).
+  { set (g := fun sv => match sv_cust sv with Some i => i | None => 0 end).
+    assert (NDg : NoDup (map g Bz)).
+    { apply NoDup_map_of_inj; [apply NoDup_filter; exact NDsvs|]. intros a b Ha Hb E.
+      destruct (HBz _ Ha) as (Ha1 & ia & Ea & _ & Fa). destruct (HBz _ Hb) as (Hb1 & ib & Eb & _ & Fb).
+      unfold g in E. rewrite Ea, Eb in E. subst ib. eapply (NoDup_map_inj_in sv_id); eauto. congruence. }
+    assert (Hincl : incl (map g Bz) Hz).
+    { intros z Hz'. apply in_map_iff in Hz'. destruct Hz' as (sv & <- & Hsv). destruct (HBz _ Hsv) as (_ & i & Ei & Hi & Fi).
+      unfold g. rewrite Ei. apply filter_In. split; [exact Hi|]. unfold holds_server. rewrite Fi. reflexivity. }
+    pose proof (NoDup_incl_length NDg Hincl) as Hl. rewrite map_length in Hl. exact Hl. }
+  assert (L2 : (length Hz <= length Bz)%nat).
+  { set (h := fun i => match isv il i with Some sid => sid | None => 0 end).
+    assert (NDh : NoDup (map h Hz)).
+    { apply NoDup_map_of_inj; [apply NoDup_filter; exact NDids|]. intros a b Ha Hb E.
+      destruct (HHz _ Ha) as (Ha1 & sa & Ea). destruct (HHz _ Hb) as (Hb1 & sb & Eb).
+      unfold h in E. rewrite Ea, Eb in E. subst sb.
+      destruct (D _ _ Ha1 Ea) as (sv1 & A1 & A2 & A3). destruct (D _ _ Hb1 Eb) as (sv2 & B1 & B2 & B3).
+      assert (sv1 = sv2) by (eapply (NoDup_map_inj_in sv_id); eauto; congruence). subst sv2. congruence. }
+    assert (Hincl : incl (map h Hz) (map sv_id Bz)).
+    { intros z Hz'. apply in_map_iff in Hz'. destruct Hz' as (i & <- & Hi). destruct (HHz _ Hi) as (Ha & sid & Ea).
+      destruct (D _ _ Ha Ea) as (sv & A1 & A2 & A3). unfold h. rewrite Ea, <- A2. apply in_map. apply filter_In. split; [exact A1|].
+      rewrite (B sv A1), A3. reflexivity. }
+    pose proof (NoDup_incl_length NDh Hincl) as Hl. rewrite !map_length in Hl. exact Hl. }
+  assert (Leq : length Bz = length Hz) by lia.
+  assert (LB : (length Bz <= length svs)%nat) by apply filter_length_le'.
+  assert (LH : (length Hz <= length ids)%nat) by apply filter_length_le'.
+  destruct (forallb (holds_server il) ids) eqn:Eall.
+  - (* nobody is waiting: every customer holds a server *)
+    rewrite forallb_forall in Eall. assert (Hz = ids) by (apply filter_all; exact Eall).
+    assert (EH : length Hz = length ids) by (rewrite H; reflexivity).
+    clearbody Bz Hz. unfold zlen in *. lia.
+  - (* somebody is waiting: every server is busy *)
+    assert (Hex : exists i, In i ids /\ holds_server il i = false).
+    { clear -Eall. induction ids as [|a r IH]; cbn in Eall; [discriminate|]. destruct (holds_server il a) eqn:E.
+      - destruct (IH Eall) as (i & Hi & Hh). exists i. split; [right; exact Hi|exact Hh].
+      - exists a. split; [left; reflexivity|exact E]. }
+    destruct Hex as (i & Hi & Hh). destruct (Hent i Hi) as (x & Hf).
+    assert (Hx : i_server x = None) by (unfold holds_server in Hh; rewrite (isv_find _ _ _ Hf) in Hh; destruct (i_server x); [discriminate|reflexivity]).
+    assert (Ball : Bz = svs) by (apply filter_all; apply Hwait; eauto).
+    assert (EB : length Bz = length svs) by (rewrite Ball; reflexivity).
+    clearbody Bz Hz. unfold zlen in *. lia.
+Qed.
+
+(* ---------- an executable test of the invariant ---------- *)
+Definition has_entry (il : list ind) (i : Z) : bool := match find_ind i il with Some _ => true | None => false end.
+Definition waiting_b (il : list ind) (i : Z) : bool := match find_ind i il with Some x => match i_server x with None => true | Some _ => false end | None => false end.
+Definition node_ni_b (nc : ncfg) (nd : node) (il : list ind) : bool :=
+  forallb (has_entry il) (all_individuals nd)
+  && match nc_c nc with None => true | Some _ => negb (existsb (waiting_b il) (all_individuals nd)) || forallb sv_busy (n_servers nd) end.
+Lemma node_ni_b_sound nc nd il : node_ni_b nc nd il = true -> NOK None None (nc_c nc) (all_individuals nd) (n_servers nd) (ient il).
+Proof.
+  unfold node_ni_b. intros H. apply andb_true_iff in H as [H1 H2]. rewrite forallb_forall in H1. split.
+  - intros i Hi. specialize (H1 i Hi). unfold has_entry in H1. unfold ient. destruct (find_ind i il); [discriminate|discriminate].
+  - intros Hoc i Hi Hw _ sv Hsv _. destruct (nc_c nc) as [c|]; [|contradiction].
+    apply orb_true_iff in H2 as [H2|H2].
+    + exfalso. apply negb_true_iff in H2. assert (Hex : existsb (waiting_b il) (all_individuals nd) = true).
+      { apply existsb_exists. exists i. split; [exact Hi|]. unfold waiting_b. unfold ient in Hw. destruct (find_ind i il) as [x|]; [|discriminate].
+        cbn in Hw. injection Hw as ->. reflexivity. }
+      congruence.
+    + rewrite forallb_forall in H2. apply H2. exact Hsv.
+Qed.
+Fixpoint nodes_ni_b (ncs : list ncfg) (nds : list node) (il : list ind) : bool :=
+  match ncs, nds with nc :: r, nd :: r' => node_ni_b nc nd il && nodes_ni_b r r' il | _, _ => true end.
+Definition ni_b (cf : config) (s : sim) : bool := srv_b cf s && nodes_ni_b (cf_nodes cf) (nodes s) (inds s).
+
+Theorem ni_b_sound cf s : ni_b cf s = true -> NIInv cf s.
+Proof.
+  unfold ni_b. intros H. apply andb_true_iff in H as [H1 H2]. split; [apply srv_b_sound; exact H1|].
+  unfold NI, NIx. generalize dependent (nodes s). generalize (cf_nodes cf). clear H1.
+  induction l as [|nc r IH]; intros nds H k nd nc' Hk Hc; [destruct k; discriminate|].
+  destruct nds as [|nd0 r']; [destruct k; discriminate|]. cbn in H. apply andb_true_iff in H as [A1 A2].
+  destruct k as [|k]; cbn in Hk, Hc.
+  - injection Hk as <-. injection Hc as <-. rewrite !hole_none. apply node_ni_b_sound. exact A1.
+  - rewrite !hole_none. specialize (IH _ A2 k nd nc' Hk Hc). rewrite !hole_none in IH. exact IH.
+Qed.
+
+(* non-vacuity: the example state of Servers.v (two busy servers, one of them held by a blocked customer, a third customer waiting) *)
+Example ex_ni : ni_b ex_cf ex_s = true.
+Proof. vm_compute. reflexivity. Qed.
+Example ex_NIInv : NIInv ex_cf ex_s.
+Proof. apply ni_b_sound. exact ex_ni. Qed.
+(* the test is not trivially true: the same state with server 2 idle and customer 2 waiting as well is rejected *)
+Example ex_ni_rejects :
+  ni_b ex_cf (ex_s <| nodes := [ mkNode 1 3 1 [[1; 2; 3]] [mkServer 1 (Some 1) true None 0 None 0; mkServer 2 None false None 0 None 0] [] 0 None [];
+                                 mkNode 2 1 1 [[4]] [] [] 0 (Some 12) [4] ] |>
+                   <| inds := [ex_ind 1 1 true (Some 1); ex_ind 2 1 false None; ex_ind 3 1 false None; ex_ind 4 2 false None] |>) = false.
+Proof. vm_compute. reflexivity. Qed.
+(* ... although it satisfies server exclusivity *)
+Example ex_ni_rejects_srv_ok :
+  srv_b ex_cf (ex_s <| nodes := [ mkNode 1 3 1 [[1; 2; 3]] [mkServer 1 (Some 1) true None 0 None 0; mkServer 2 None false None 0 None 0] [] 0 None [];
+                                  mkNode 2 1 1 [[4]] [] [] 0 (Some 12) [4] ] |>
+                    <| inds := [ex_ind 1 1 true (Some 1); ex_ind 2 1 false None; ex_ind 3 1 false None; ex_ind 4 2 false None] |>) = true.
+Proof. vm_compute. reflexivity. Qed.
+
+(* ---------- T2 for C05 over whole runs, in the words of the property ---------- *)
+Theorem engine_nonidle cf : forall ds s s', NIInv cf s -> run_many cf s ds = Ok s' ->
+  forall k nd nc c, nth_error (nodes s') k = Some nd -> nth_error (cf_nodes cf) k = Some nc -> nc_c nc = Some c ->
+    ((exists i x, In i (all_individuals nd) /\ find_ind i (inds s') = Some x /\ i_server x = None) ->
+       forall sv, In sv (n_servers nd) -> sv_busy sv = true) /\
+    zlen (filter sv_busy (n_servers nd)) = Z.min c (n_pop nd).
+Proof.
+  intros ds s s' HJ H k nd nc c Hk Hc Hcc.
+  destruct (ni_means cf s' (run_many_ni cf ds s s' HJ H) k nd nc c Hk Hc Hcc) as (_ & A & B). split; assumption.
+Qed.
+
+Print Assumptions event_step_ni.
+Print Assumptions run_many_ni.
+Print Assumptions ni_means.
+Print Assumptions ni_b_sound.
+Print Assumptions ex_NIInv.
+Print Assumptions engine_nonidle.
